@@ -6,6 +6,7 @@ import core
 from core import B, limbs
 
 def run(ctx):
+    ctx.claim_exhaustive = False      # keys / messages / parameters are sampled over an enumerated grid; only the spec-level models are exhaustive
     rnd = ctx.rnd; big = ctx.big()
     from crysp import wb
     from crysp.bits import Bits
